@@ -20,6 +20,7 @@ import XotModel.Driver.Fclone
 import XotModel.Driver.Repair
 import XotModel.Driver.SerTokens
 import XotModel.Driver.Fprefix
+import XotModel.Driver.Fanyorder
 
 open XotModel.Driver
 
@@ -48,6 +49,7 @@ def dispatchAll (st : MState) (line : String) : MState × String :=
   match words line with
   | "forest" :: "spec" :: rest => (st, (handleFspec st.forest ("spec" :: rest)).getD "bad-request")
   | "forest" :: "specx" :: rest => (st, (handleFspec st.forest ("specx" :: rest)).getD "bad-request")
+  | "forest" :: "prog" :: rest => (st, (handleFanyorder st.forest rest).getD "bad-request")
   | "forest" :: "fixed" :: rest => (match handleFfixed st.forest rest with | some (fs, resp) => ({ st with forest := fs }, resp) | none => (st, "bad-request"))
   | "forest" :: rest =>
     (match handleFprefix st.d.env st.forest rest with
